@@ -367,39 +367,70 @@ def check_path_and_observe(prog, rep):
         rep.ob("C19.5", "separator", sc == [str(ord("/"))] and jc == ["/"],
                "set_path splits on %s but get_path joins with %s: paths do not read back" % (sc, jc),
                {"file": sp["span"]["f"], "line": sp["span"]["l"], "fn": sp["path"]}, sample={"rule": "C19.5", "split": sc, "join": jc})
-        # the only segment that may be skipped is an empty first one
+        # the only segment that may be skipped is an empty first one - wherever the segments are obtained (an enumerated
+        # for loop, a peeled first next(), a helper that stores them)
+        import summaries2
         I = new_interp(prog)
         gargs = (("param", "Endpoint"),)
         skipped = []
 
-        def loop_hook(I_, ctx, h, head, backs, exits):
-            if ctx.body["id"] != sp["id"]:
-                return
-            for b_ in backs:
-                if not b_.ghost.get(("inj", "added")):
-                    skipped.append(b_)
-        I.loop_hooks.append(loop_hook)
-        lens = []
+        def wrap_next(I_, st_, call):
+            if st_.ghost.get("seg-pending"):
+                skipped.append(st_.copy())            # the previous segment was never stored
+            res = summaries2.m_next(I_, st_, call)
+            if res is None:
+                return None
+            for s2, v in res:
+                if isinstance(v, EnumV) and list(v.variants) == [1]:
+                    s2.ghost["seg-pending"] = True
+                    s2.ghost["seg-n"] = s2.ghost.get("seg-n", 0) + 1
+                    item = v.variants[1].fields[0] if isinstance(v.variants[1], StructV) and v.variants[1].fields else None
+                    seg = item.fields[-1] if isinstance(item, StructV) and item.fields else item
+                    if isinstance(seg, SliceV):
+                        s2.cells[("gh", "seg")] = seg
+                else:
+                    s2.ghost["seg-pending"] = False
+            return res
+        for pth in ("<core::str::iter::Split<'a, P> as core::iter::traits::iterator::Iterator>::next",
+                    "<core::iter::adapters::enumerate::Enumerate<I> as core::iter::traits::iterator::Iterator>::next"):
+            I.extra_models[pth] = wrap_next
 
         def hook(I_, s, call, cbody):
-            if call.ctx.body["id"] != sp["id"]:
-                return
             if call.path == "packet::Packet::add_option":
-                s.ghost[("inj", "added")] = True
-            elif call.path.endswith("Enumerate<I> as core::iter::traits::iterator::Iterator>::next"):
-                s.ghost.pop(("inj", "added"), None)
+                s.ghost["seg-pending"] = False
         I.call_hooks.append(hook)
+
+        def lhook(I_, ctx, h, head, backs, exits):
+            for b_ in backs:
+                if b_.ghost.get("seg-pending"):
+                    skipped.append(b_.copy())       # the iteration ends with its segment not stored
+                    b_.ghost["seg-pending"] = False
+        I.loop_hooks.append(lhook)
+
+        def ehook(I_, ctx, h, ins):
+            for e_ in ins:
+                if e_.ghost.get("seg-pending"):
+                    skipped.append(e_.copy())       # a segment obtained before the loop was not stored
+                    e_.ghost["seg-pending"] = False
+        I.loop_entry_hooks.append(ehook)
         I.unroll_max_blocks = 0
+        I.no_join_bodies.add(sp["id"])
         I, res = run(prog, sp, I=I, gargs=gargs)
-        # on a skipping path the index is 0 and the segment is empty: both facts must be present as constants
+        for s_, _ in res:
+            if s_.ghost.get("seg-pending"):
+                skipped.append(s_)
         ok = True
         for s in skipped:
-            zero_idx = any(v == (0, 0) and k.startswith("item") for k, v in s.bounds.items())
-            empty = any(v == (0, 0) and k.startswith("len(") for k, v in s.bounds.items())
-            if not (zero_idx and empty):
+            seg = s.cells.get(("gh", "seg"))
+            empty = isinstance(seg, SliceV) and s.entails_eq(seg.len, Aff.const(0))
+            if not empty:
+                empty = any(v == (0, 0) and k.startswith("len(") for k, v in s.bounds.items())
+            first = s.ghost.get("seg-n") == 1 or any(v == (0, 0) and k.startswith("item") for k, v in s.bounds.items())
+            if not (first and empty):
                 ok = False
-        rep.ob("C19.5", "skip-only-leading-empty", ok,
-               "set_path can drop a path segment other than an empty first one (e.g. the empty segment of \"a//b\" or a trailing one)",
+        rep.ob("C19.5", "skip-only-leading-empty", ok and len(skipped) >= 1,
+               "set_path can drop a path segment other than an empty first one (e.g. the empty segment of \"a//b\" or a trailing one), "
+               "or the leading empty segment is no longer skipped (skipping paths: %d)" % len(skipped),
                {"file": sp["span"]["f"], "line": sp["span"]["l"], "fn": sp["path"]}, sample={"rule": "C19.5", "skipping_paths": len(skipped)})
     # ---- C19.4 observe flag accessors compose the C05.3 tables with set/get_observe_value
     so = find_body(prog, "request::CoapRequest::<Endpoint>::set_observe_flag")
